@@ -148,7 +148,7 @@ fn drive<W: Wrap, G: GraphLike<W>>(src: &mut Source, obs: &mut Observer) -> Resu
                     continue;
                 }
                 let model = new_model(next_tag, op.a.rem_euclid(N_KINDS), op.b.clamp(0, 3) as usize, op.c, 0.0);
-                let Some(node) = make_node::<W>(&model, op.c) else {
+                let Some(node) = make_node::<W>(&model, op.c, false) else {
                     src.skip_last();
                     obs.skipped();
                     continue;
@@ -224,7 +224,7 @@ fn drive<W: Wrap, G: GraphLike<W>>(src: &mut Source, obs: &mut Observer) -> Resu
                 };
                 let nb = m.slots[a].as_ref().unwrap().bufs.len();
                 let model = new_model(next_tag, op.b.rem_euclid(N_KINDS), nb, op.c, 0.0);
-                let Some(node) = make_node::<W>(&model, op.c) else {
+                let Some(node) = make_node::<W>(&model, op.c, false) else {
                     src.skip_last();
                     obs.skipped();
                     continue;
